@@ -40,6 +40,8 @@ type faultReader struct {
 	kind      string // err | eof | unexpected
 	eofInline bool   // report the failure together with the last data bytes
 	delivered []byte
+	// kind "transient": the failure is reported once, then the source delivers again
+	failedOnce bool
 }
 
 var errEntropy = errors.New("entropy source failed")
@@ -52,9 +54,17 @@ func (f *faultReader) fail() error {
 		return io.ErrUnexpectedEOF
 	case "temporary":
 		return temporaryErr{}
+	case "unhashable":
+		return multiErr{errEntropy, io.ErrNoProgress}
 	}
 	return errEntropy
 }
+
+// multiErr is an error value of a non-comparable type (a list of causes), as error-joining
+// helpers produce: it can be returned and wrapped, but not used as a map key.
+type multiErr []error
+
+func (e multiErr) Error() string { return fmt.Sprint([]error(e)) }
 
 // temporaryErr is what a non-blocking or network-backed source keeps answering while it has
 // nothing to give (EAGAIN, a timeout): an error all the same.
@@ -65,7 +75,25 @@ func (temporaryErr) Temporary() bool { return true }
 func (temporaryErr) Timeout() bool   { return true }
 
 func (f *faultReader) Read(p []byte) (int, error) {
+	if f.kind == "transient" && f.failedOnce {
+		// the source has recovered: it delivers the rest of the stream
+		n := len(p)
+		if f.chunk > 0 && n > f.chunk {
+			n = f.chunk
+		}
+		if n > len(f.data)-f.pos {
+			n = len(f.data) - f.pos
+		}
+		if n == 0 {
+			return 0, io.EOF
+		}
+		copy(p, f.data[f.pos:f.pos+n])
+		f.delivered = append(f.delivered, f.data[f.pos:f.pos+n]...)
+		f.pos += n
+		return n, nil
+	}
 	if f.pos >= f.k {
+		f.failedOnce = true
 		return 0, f.fail()
 	}
 	n := len(p)
@@ -79,6 +107,7 @@ func (f *faultReader) Read(p []byte) (int, error) {
 	f.delivered = append(f.delivered, f.data[f.pos:f.pos+n]...)
 	f.pos += n
 	if f.pos >= f.k && f.eofInline {
+		f.failedOnce = true
 		return n, f.fail()
 	}
 	return n, nil
@@ -141,6 +170,7 @@ func runCell(c C20Case, cell c20Cell, base *biscuit.Biscuit, priv ed25519.Privat
 			return nil, fr, fmt.Errorf("harness: %w", e), "harness: the first Build failed although the source delivered 32 bytes"
 		}
 		fr.delivered = nil
+		fr.failedOnce = false // a failure reported with the last byte of the first Build belongs to the first Build
 		tok, err = b.Build()
 	case "new":
 		bb := biscuit.NewBlockBuilder(&datalog.SymbolTable{})
@@ -188,7 +218,7 @@ func checkC20(c C20Case, rec *obs.Recorder) *obs.Violation {
 		}
 		ks = append(ks, 32, 33, 64, 96) // controls: the source fails only after the key material was delivered
 		for _, k := range ks {
-			for _, kind := range []string{"err", "eof", "unexpected", "temporary"} {
+			for _, kind := range []string{"err", "eof", "unexpected", "temporary", "unhashable", "transient"} {
 				for ci, chunk := range chunks {
 					cell := c20Cell{Op: op, K: k, Kind: kind, Chunk: chunk, Inline: (k+ci)%2 == 1}
 					cells++
@@ -239,7 +269,7 @@ func checkC20(c C20Case, rec *obs.Recorder) *obs.Violation {
 	rec.Count("fault_cells", cells)
 	rec.Label("shape")
 	rec.Sample(map[string]any{"authority": c.Authority.Text(), "later_block": c.Later.Text(), "cells": cells,
-		"cell_space": "op{builder,builder+keyid,builder+keyid-first,builder-second-build,new,append,append-reloaded} x k{0..31,32,33,64,96} x failure{err,eof,unexpected,temporary} x chunking{all,1 byte," + fmt.Sprint(c.Chunk) + "}"})
+		"cell_space": "op{builder,builder+keyid,builder+keyid-first,builder-second-build,new,append,append-reloaded} x k{0..31,32,33,64,96} x failure{err,eof,unexpected,temporary,unhashable,transient} x chunking{all,1 byte," + fmt.Sprint(c.Chunk) + "}"})
 	return nil
 }
 
@@ -257,7 +287,7 @@ func drawC20(t *rapid.T) C20Case {
 func TestC20(t *testing.T) {
 	rec := obs.New("C20")
 	defer rec.Flush(true)
-	rec.SetExtra("rule", "fault enumeration: for every generated token shape (authority content, appended content), every operation that draws randomness (Builder.Build with WithRNG alone and combined with WithRootKeyID in either order, the second Build of one builder whose first Build took 32 bytes, biscuit.New, Append on a fresh token, Append on a token reloaded from bytes) x every fault point k in 0..31 (plus controls k = 32, 33, 64, 96) x failure kind (error, io.EOF, io.ErrUnexpectedEOF, a persistent error whose Temporary() and Timeout() are true; reported with the last data or on the next call) x chunking (all at once, one byte at a time, drawn chunk size). k < 32: an error, no token, no panic. k >= 32: the announced next key and the proof are derived from the first 32 delivered bytes and the chain verifies per the reference. Non-trivial = fault strictly inside the key read (k < 32); distinct by (shape, operation, k, kind, chunking). The cell space is enumerated completely for each shape.")
+	rec.SetExtra("rule", "fault enumeration: for every generated token shape (authority content, appended content), every operation that draws randomness (Builder.Build with WithRNG alone and combined with WithRootKeyID in either order, the second Build of one builder whose first Build took 32 bytes, biscuit.New, Append on a fresh token, Append on a token reloaded from bytes) x every fault point k in 0..31 (plus controls k = 32, 33, 64, 96) x failure kind (error, io.EOF, io.ErrUnexpectedEOF, a persistent error whose Temporary() and Timeout() are true, an error value of a non-comparable type, an error reported once after which the source delivers again; reported with the last data or on the next call) x chunking (all at once, one byte at a time, drawn chunk size). k < 32: an error, no token, no panic. k >= 32: the announced next key and the proof are derived from the first 32 delivered bytes and the chain verifies per the reference. Non-trivial = fault strictly inside the key read (k < 32); distinct by (shape, operation, k, kind, chunking). The cell space is enumerated completely for each shape.")
 	rec.SetExtra("assumptions", []string{"ed25519.GenerateKey reads exactly 32 bytes with io.ReadFull (Go 1.23 standard library)", "Seal draws no randomness"})
 	rec.SetExtra("exhaustive", true)
 	harness.RunWith(t, harness.Spec[C20Case]{ID: "C20", Draw: drawC20, Check: checkC20}, rec)
